@@ -43,7 +43,7 @@ func (eng) Rule(mode string) string {
 	if mode == "c18" {
 		return "c18: valid layouts (2..6 levels, 0..4 level-0 tables, deeper levels of 0..3 range-disjoint tables, populated middle levels) built from a random write history split chronologically; random compactor settings (trigger 1..4, amplification 1..1000 %, smallest level size 0..20000, target table size 30..100000); Compact stepped to nil with 0..2 new level-0 tables between Compact and the apply. Non-trivial: at least one non-nil step on a layout with two or more populated levels."
 	}
-	return "c07: histories of 15..70 operations over 4..8 keys with shared prefixes (incl. the empty key), MemTableSize 19..160, MaxWALSize small or unlimited, L0 trigger 1..4, tuned compactor constants; flush and compaction tasks advanced one half-step (F1,F2,C1,C2) at generated points, also between the two snapshots of a read. Non-trivial: some read happened while the level list held a table and some flush swap was executed."
+	return "c07: histories of 15..70 operations over 4..8 keys with shared prefixes (incl. the empty key), MemTableSize 19..160, MaxWALSize small or unlimited, L0 trigger 1..4, tuned compactor constants; flush and compaction tasks advanced one half-step (F1,F2,C1,C2) at generated points, also between the two snapshots of a read; one in four C1 half-steps runs with a storage read fault (ReadAt of one table fails from a generated offset) - a Compact that returns the error ends the task, reads must stay 'latest write wins' either way. Non-trivial: some read happened while the level list held a table and some flush swap was executed."
 }
 
 // ---------------------------------------------------------------- shared helpers
@@ -136,6 +136,14 @@ type op7 struct {
 
 var bgKinds = []string{"F1", "F2", "C1", "C2"}
 
+func pickBg(r *hx.Rand) string {
+	a := hx.Pick(r, bgKinds)
+	if a == "C1" && r.Chance(1, 4) {
+		return fmt.Sprintf("C1f%d:%d", r.Intn(8), r.Range(0, 90))
+	}
+	return a
+}
+
 func genC07(r *hx.Rand, idx int) *hx.Case {
 	keys := pickKeys(r)
 	mem := r.Range(19, 60)
@@ -161,7 +169,7 @@ func genC07(r *hx.Rand, idx int) *hx.Case {
 		k := r.Intn(max + 1)
 		out := make([]string, k)
 		for i := range out {
-			out[i] = hx.Pick(r, bgKinds)
+			out[i] = pickBg(r)
 		}
 		return out
 	}
@@ -169,7 +177,7 @@ func genC07(r *hx.Rand, idx int) *hx.Case {
 		x := r.Intn(100)
 		switch {
 		case x < bgw:
-			ops = append(ops, hx.Op(op7{Op: "bg", A: hx.Pick(r, bgKinds)}))
+			ops = append(ops, hx.Op(op7{Op: "bg", A: pickBg(r)}))
 		case x < bgw+(100-bgw)*45/100:
 			ops = append(ops, hx.Op(op7{Op: "put", K: hx.Pick(r, keys), V: randVal(r)}))
 		case x < bgw+(100-bgw)*60/100:
@@ -200,6 +208,9 @@ type sched struct {
 	flushedKeys  map[string]bool // keys that are in some table of the level list
 	sealedKeys   []map[string]bool
 	activeKeys   map[string]bool
+	ffs          *faultFS
+	beginArrived bool // the next compaction task already reported dkv.compact.begin
+	failedTasks  int  // compaction tasks that ended with a (fault-induced) error
 }
 
 var hookNames = []string{"dkv.flush.begin", "dkv.flush.swap", "dkv.flush.end", "dkv.compact.begin", "dkv.compact.iter",
@@ -268,7 +279,19 @@ func (s *sched) f2() bool {
 	return true
 }
 
-func (s *sched) c1() bool {
+// parseFault: "C1f<table index>:<offset>" arms a storage read fault for the Compact call of this half-step.
+func parseFault(a string) (kind string, fault *fault18) {
+	if strings.HasPrefix(a, "C1f") {
+		var f fault18
+		if _, err := fmt.Sscanf(a[3:], "%d:%d", &f.T, &f.Off); err == nil {
+			return "C1", &f
+		}
+		return "C1", nil
+	}
+	return a, nil
+}
+
+func (s *sched) c1(fault *fault18) bool {
 	if s.err != nil {
 		return false
 	}
@@ -276,9 +299,10 @@ func (s *sched) c1() bool {
 		if s.compPending == 0 {
 			return false
 		}
-		if !s.wait("dkv.compact.begin") {
+		if !s.beginArrived && !s.wait("dkv.compact.begin") {
 			return false
 		}
+		s.beginArrived = false
 		s.rel("dkv.compact.begin")
 		if !s.wait("dkv.compact.iter") {
 			return false
@@ -289,23 +313,60 @@ func (s *sched) c1() bool {
 	if s.cstate != 1 {
 		return false
 	}
+	// a read fault on one table while Compact runs; if Compact returns the error the task ends without passing a hook
+	// point: its end is observed through a sentinel on the serial compaction queue (or the start of the next task)
+	var sentinel chan struct{}
+	var nextBegin chan struct{}
+	s.ffs.faults.Store(0)
+	if fault != nil {
+		if names := s.db.VerifC07TableNames(); len(names) > 0 {
+			s.ffs.failName = names[((fault.T%len(names))+len(names))%len(names)]
+			s.ffs.failFrom = int64(fault.Off)
+			s.ffs.faults.Store(0)
+			s.ffs.armed.Store(true)
+			s.tags["fault_armed"] = true
+			if s.compPending == 0 {
+				sentinel = make(chan struct{}, 1)
+				ch := sentinel
+				s.db.VerifC07EnqueueCompaction(func() error { ch <- struct{}{}; return nil })
+			} else {
+				nextBegin = s.arrive["dkv.compact.begin"]
+			}
+		}
+	}
 	s.rel("dkv.compact.iter")
 	if s.err != nil {
 		return false
 	}
+	ended := func() {
+		s.cstate = 0
+		s.failedTasks++
+		s.tags["fault_hit_compact_error"] = true
+		s.emit("OC1F", "C1:failed")
+	}
+	ok := true
 	select {
 	case <-s.arrive["dkv.compact.swap"]:
 		s.cstate = 2
+		if s.ffs.faults.Load() > 0 {
+			s.tags["fault_hit_but_change_set"] = true
+		}
 		s.emit("(OC1 true)", "C1:cs")
 	case <-s.arrive["dkv.compact.end"]:
 		s.rel("dkv.compact.end")
 		s.cstate = 0
 		s.emit("(OC1 false)", "C1:nil")
+	case <-sentinel:
+		ended()
+	case <-nextBegin:
+		s.beginArrived = true
+		ended()
 	case <-time.After(20 * time.Second):
 		s.err = fmt.Errorf("compaction task reached neither dkv.compact.swap nor dkv.compact.end")
-		return false
+		ok = false
 	}
-	return true
+	s.ffs.armed.Store(false)
+	return ok
 }
 
 func (s *sched) c2() bool {
@@ -328,7 +389,7 @@ func (s *sched) runCompactionTask() {
 		s.c2()
 	}
 	for s.err == nil {
-		if !s.c1() {
+		if !s.c1(nil) {
 			return
 		}
 		if s.cstate == 0 {
@@ -343,13 +404,14 @@ func (s *sched) runCompactionTask() {
 }
 
 func (s *sched) bg(a string) bool {
+	a, fault := parseFault(a)
 	switch a {
 	case "F1":
 		return s.f1()
 	case "F2":
 		return s.f2()
 	case "C1":
-		return s.c1()
+		return s.c1(fault)
 	case "C2":
 		return s.c2()
 	}
@@ -471,7 +533,8 @@ func (s *sched) read(scan bool, k []byte, bgs []string) {
 	}
 	for _, a := range bgs {
 		if s.bg(a) && parked {
-			s.tags["read_parked_across_"+a] = true
+			k, _ := parseFault(a)
+			s.tags["read_parked_across_"+k] = true
 		}
 	}
 	if parked {
@@ -509,13 +572,13 @@ func execC07(c *hx.Case) (*hx.Result, error) {
 	verifhook.SetTuning("dkv", dkv.VerifDBTuning{MaxSizeAmplificationPercent: maxamp, SmallestLevelSize: int64(smallest), LevelSizeMultiplier: 10})
 	defer verifhook.SetTuning("dkv", nil)
 	s := &sched{arrive: map[string]chan struct{}{}, release: map[string]chan struct{}{}, tags: map[string]bool{},
-		flushedKeys: map[string]bool{}, activeKeys: map[string]bool{}}
+		flushedKeys: map[string]bool{}, activeKeys: map[string]bool{}, ffs: &faultFS{FileSystem: storage.NewMemoryFilesystem()}}
 	for _, n := range hookNames {
 		s.arrive[n] = make(chan struct{}, 1)
 		s.release[n] = make(chan struct{})
 	}
 	db := dkv.Open(dkv.DBOptions{
-		FileSystem: storage.NewMemoryFilesystem(), MemTableSize: uint64(mem), MaxWALSize: uint64(wal),
+		FileSystem: s.ffs, MemTableSize: uint64(mem), MaxWALSize: uint64(wal),
 		TargetFileSize: uint64(target), L0TableNumCompactionTrigger: trig,
 		Logger: slog.New(slog.NewTextHandler(io.Discard, nil)),
 	}, nil)
@@ -600,7 +663,12 @@ func execC07(c *hx.Case) (*hx.Result, error) {
 		return nil, s.err
 	}
 	if err := db.WaitOnTasks(); err != nil {
-		return nil, fmt.Errorf("background task failed: %v", err)
+		if s.failedTasks == 0 {
+			return nil, fmt.Errorf("background task failed: %v", err)
+		}
+		s.tags["wait_on_tasks_reports_compaction_error"] = true
+	} else if s.failedTasks > 0 {
+		s.tags["compaction_error_not_reported_by_wait"] = true
 	}
 	term := fmt.Sprintf("(C07 %d %d %d %d %d %d %s)", mem, wal, trig, maxamp, smallest, target, coqList(s.acts, "oact"))
 	var tags []string
